@@ -28,3 +28,9 @@ Lemma law_mixed_add_FH_QH a0 a1 a2 a3 b0 b1 b2 b3 : halves_eq 8 (mixed_add_FH_QH
 Proof. law. Qed.
 Lemma law_mixed_scale_FU_double a0 a1 a2 a3 r : r <> 0 -> halves_eq 12 (mixed_scale_FU_double (OO:=ROps) a0 a1 a2 a3 r).
 Proof. law. Qed.
+
+(* scalar multiples through the compound operators when the scalar aliases a component of the destination *)
+Lemma law_div_alias_QH a0 a1 a2 a3 : a0 <> 0 -> a1 <> 0 -> a2 <> 0 -> halves_eq 24 (div_alias_QH (OO:=ROps) a0 a1 a2 a3).
+Proof. law. Qed.
+Lemma law_mul_alias_BU a0r a0i a1r a1i a2r a2i a3r a3i : halves_eq 16 (mul_alias_BU (OO:=ROps) a0r a0i a1r a1i a2r a2i a3r a3i).
+Proof. law. Qed.
